@@ -16,7 +16,7 @@ from commonroad.prediction.prediction import TrajectoryPrediction
 from commonroad.scenario.obstacle import DynamicObstacle, ObstacleType
 from commonroad.scenario.trajectory import Trajectory
 from contracts.c01 import RoundTrip, initial_state, mk_planning_problems, mk_scenario, pos, positive
-from pyvc.contract import B, Contract, R, T, conj, register
+from pyvc.contract import B, Contract, R, T, conj, register, scratch_dir
 
 
 def custom_states_obstacle(F):
@@ -82,7 +82,7 @@ def op_write_xml(F, sc, pps):
     import os
     import tempfile
 
-    path = os.path.join(tempfile.mkdtemp(prefix="verif_c18_"), "out.xml") if F.native else "/nonexistent-dir/c18.xml"
+    path = os.path.join(scratch_dir("c18_"), "out.xml") if F.native else "/nonexistent-dir/c18.xml"
     w = F.new(CommonRoadFileWriter, sc, pps, decimal_precision=4, file_format=FileFormat.XML)
     F.method(w, "write_to_file", path, OverwriteExistingFile.ALWAYS)
 
